@@ -630,7 +630,7 @@ class PathMatches(Matcher):
         if _ends_with_anchor(pattern):
             pattern = pattern[:-1]
 
-        if self.regex.groups != pattern.count("("):
+        if not (self.regex.groups == pattern.count("(") == pattern.count(")")):
             # The pattern is too complicated for our simplistic matching,
             # so we can't support reversing it.
             return None, None
